@@ -2,6 +2,7 @@ import TeaalVerif.Driver.C02
 import TeaalVerif.Nest.Dyn
 import TeaalVerif.Props.C03Nest
 import TeaalVerif.Props.C03Static
+import TeaalVerif.Props.C03Chain
 open Lean
 namespace Driver
 open Nest
@@ -90,6 +91,68 @@ def nestStatDyn (j : Json) : Except String Json := do
   let hyps := decide (C03.StatDynHyps S env sps L1 D npre σ0)
   let base := [("run", jPts r), ("spec", jPts m), ("expected_loops", jLoops (expectedLoops S')), ("leader_found", Json.bool found),
                ("hyps_ok", Json.bool hyps)]
+  match j.getObjVal? "tree" with
+  | .ok tj =>
+    let s ← HF.stmtOfJson tj
+    return Json.mkObj (base ++ [("actual_loops", jLoops (HF.loopSkeleton s))])
+  | .error _ => return Json.mkObj base
+
+/-- op `nest_chain`: static shape splits (header), then a chain of dynamic occupancy splits, each inside the loops of the
+    previous one.  `loop1` = loop order after the static splits with every dynamically split rank still unsplit; each level
+    gives the number of loops that precede its split (counted in the loops remaining at that point) and the emitted order of
+    the loops after its split. -/
+def nestChain (j : Json) : Except String Json := do
+  let (S, env) ← einsumSOfJson j
+  let sps ← listOf splitSpecOfJson (← fld j "splits")
+  let L1 ← strList (← fld j "loop1")
+  let outc := concord L1 S.outRanks
+  let σ0 := List.replicate outc.length 0
+  let A : C02.Cfg := ⟨S.loop.zip S.exts, outc, S.terms, env, σ0⟩
+  let B := C02.applySplits sps A
+  let S1 := C02.partEinsum S B L1
+  let tensors := match S1.terms with
+    | [t] => t.tensors
+    | _ => []
+  let mut curN := S1.loop
+  let mut curE := S1.exts
+  let mut ranks : List (List String) := tensors.map (·.ranks)
+  let mut full : List (List String) := tensors.map (·.ranks)
+  let mut lvls : List C03.DynLevel := []
+  let mut allPre : List String := []
+  let mut allPreE : List Nat := []
+  for lj in (← HF.arr (← fld j "levels")).toList do
+    let npre ← natOf (← fld lj "npre")
+    let K ← HF.strOf (← fld lj "K")
+    let K1 ← HF.strOf (← fld lj "K1")
+    let K0 ← HF.strOf (← fld lj "K0")
+    let n ← natOf (← fld lj "n")
+    let leader ← HF.strOf (← fld lj "leader")
+    let rs' ← strList (← fld lj "loop2")
+    let preN := curN.take npre
+    let preE := curE.take npre
+    let rsU := curN.drop npre
+    let esU := curE.drop npre
+    let eK := ((rsU.zip esU).lookup K).getD 0
+    let es' := rs'.map fun r => if r = K1 ∨ r = K0 then eK else ((rsU.zip esU).lookup r).getD 0
+    let leadO := (tensors.zipIdx.find? fun (x, _) => x.name == leader).map (·.2) |>.getD 0
+    let D : DynSpec := { K := K, K1 := K1, K0 := K0, n := n, leadT := 0, leadO := leadO, rsU := rsU, esU := esU, rs' := rs', es' := es',
+                         ranks := [ranks.map (concord rsU)] }
+    lvls := lvls ++ [{ preN := preN, preE := preE, D := D }]
+    ranks := ranks.map fun aR => splitRanks K K1 K0 (concord rsU aR)
+    full := full.map (splitRanks K K1 K0)
+    allPre := allPre ++ preN
+    allPreE := allPreE ++ preE
+    curN := rs'
+    curE := es'
+  let contribs := C03.kinOf S1.outRanks lvls S1.loop S1.exts (initTerms S1 B.env)
+  let finalTerms : List TermS := match S1.terms with
+    | [t] => [{ t with tensors := (t.tensors.zip full).map fun (x, rk) => { x with ranks := rk } }]
+    | ts => ts
+  let S' : EinsumS := { S1 with loop := allPre ++ curN, exts := allPreE ++ curE, terms := finalTerms, outRanks := S.outRanks }
+  let r := collect S' contribs
+  let m := collect S (spec (levels S) (initTerms S env))
+  let hyps := decide (C03.StatChainHyps S env sps L1 lvls σ0)
+  let base := [("run", jPts r), ("spec", jPts m), ("expected_loops", jLoops (expectedLoops S')), ("hyps_ok", Json.bool hyps)]
   match j.getObjVal? "tree" with
   | .ok tj =>
     let s ← HF.stmtOfJson tj
